@@ -360,6 +360,16 @@ pub fn c10_script(r: &mut Rng, _index: u64, _tier: Tier) -> (CaseCfg, Vec<Step>)
         s.push(Step::Poll { max_wait: interval + 1, cancel_at: Some(r.range(2, 4)) });
         s.push(Step::Advance(*r.pick(&[1u64, 1_000_000, 3_000_000, 4_000_000])));
     }
+    // one case in eight: the transmit arena is full to within a few bytes (one big publish the
+    // broker does not acknowledge) and the application tries to disconnect with properties: the
+    // DISCONNECT finds no room, the call says so, the connection stays up - and stays kept alive
+    if eff > 0 && !small_mps && !tiny_mps && r.chance(1, 8) {
+        s.push(Step::Broker(BrokerAct::Policy(BrokerPolicy { acks: AckMode::Hold, ping, fail_pct: 0, longform_pct: 0 })));
+        let leave = r.below(6);
+        // PUBLISH "k": 1 + 2 (remaining length) + 2 + 1 + 2 + 1 + payload
+        s.push(Step::Publish(PubSpec { topic: "k".into(), payload: PayloadSpec::Fill { len: cfg.tx - leave - 9, tag: 0xF11, ascii: false }, qos: 1, retain: false, props: vec![], correlate: None, cancel_at: None }));
+        s.push(Step::Disconnect(DiscSpec { reason: Some(0), props: Some(vec![Prop::ReasonString("bye for now".into())]), cancel_at: None }));
+    }
     for i in 0..r.range(4, 10) {
         let wait = match r.below(9) {
             0 => interval.saturating_sub(1),
@@ -981,6 +991,53 @@ pub fn disconnect_given_up_script(r: &mut Rng, _index: u64, _tier: Tier) -> (Cas
     s.push(pubq(1, "after", 9, 2));
     s.push(Step::Broker(BrokerAct::Release { n: 99, order: Order::Fifo }));
     for _ in 0..2 * n + 3 {
+        s.push(poll0());
+    }
+    (cfg, s)
+}
+
+/// Shared: a QoS 2 exchange has reached its release phase (PUBREC received, PUBREL sent, PUBCOMP
+/// withheld) when the transmit arena fills up to the last bytes with another unacknowledged
+/// packet; the connection is lost and the session resumed: the PUBREL (and the acknowledgements
+/// the client owes) need no arena room and go out again.
+pub fn release_on_a_full_arena_script(r: &mut Rng, _index: u64, _tier: Tier) -> (CaseCfg, Vec<Step>) {
+    use crate::refcodec::SPacket;
+    let tx = *r.pick(&[64usize, 96, 128, 256]);
+    let cfg = CaseCfg { rx: 128, tx, keepalive: 0, ..CaseCfg::default() };
+    let mut s = vec![connect_with(SpMode::Force(false), AckMode::Hold, vec![])];
+    let n2 = r.range(1, 2);
+    for k in 0..n2 {
+        s.push(pubq(2, "r", k as u32, 2));
+    }
+    s.push(Step::Broker(BrokerAct::Release { n: n2, order: Order::Fifo }));
+    for _ in 0..2 * n2 + 1 {
+        s.push(poll0());
+    }
+    // one case in two: an inbound QoS 1 / QoS 2 publish is waiting as well (its acknowledgement is owed)
+    let inbound = r.chance(1, 2);
+    // the filler: PUBLISH "f", 1 + 1|2 + 2 + 1 + 2 + 1 + payload
+    let leave = r.below(9);
+    let total = tx - leave;
+    let rlb = if total >= 128 + 3 { 2 } else { 1 };
+    s.push(pubq(1, "f", 0xF1, total - (1 + rlb + 3 + 2 + 1)));
+    if inbound {
+        s.push(Step::Broker(BrokerAct::Send(SPacket::Publish { dup: false, qos: 1 + r.below(2) as u8, retain: false, topic: "in".into(), pid: Some(3), props: vec![], payload: vec![1] })));
+        s.push(poll0());
+        s.push(poll0());
+    }
+    s.push(match r.below(3) {
+        0 => Step::DropConn,
+        1 => Step::Broker(BrokerAct::Close),
+        _ => Step::ForgetConn,
+    });
+    s.push(poll0());
+    s.push(Step::DropConn);
+    s.push(connect_with(SpMode::Force(true), AckMode::Hold, vec![]));
+    for _ in 0..n2 + 3 {
+        s.push(poll0());
+    }
+    s.push(Step::Broker(BrokerAct::Release { n: 99, order: Order::Fifo }));
+    for _ in 0..2 * n2 + 4 {
         s.push(poll0());
     }
     (cfg, s)
